@@ -62,6 +62,50 @@ def cardGo (A : Arr) (weighted : Bool) : Nat → Nat → Cache → Cache
       | some cl, some ch => c2.setIfInBounds p (some (cardNode A weighted nd cl ch))
       | _, _ => c2
 
+/-- writing `None` over an entry that is `None` (or outside the vector) changes nothing -/
+theorem set_none_eq (c : Cache) (p : Nat) (h : c.getD p none = none) : c.setIfInBounds p none = c := by
+  apply Array.ext_getElem?
+  intro i
+  rw [Array.getElem?_setIfInBounds]
+  by_cases hpi : p = i
+  · subst hpi
+    by_cases hs : p < c.size
+    · rw [Array.getD_eq_getD_getElem?, Array.getElem?_eq_getElem hs] at h
+      simp only [Option.getD_some] at h
+      simp [hs, h]
+    · simp [hs]
+  · simp [hpi]
+
+/-- `cardGo` with one extra, void write (`cache[p] = None` where it is `None` already) in front of the
+    recursive calls. The Lean compiler otherwise treats the cache parameter as *borrowed* and copies the
+    whole array at every `setIfInBounds` (quadratic on diagrams with > 10⁵ nodes); the void write makes it
+    an owned, destructively updated array — as the Rust `Vec` is. Compiled code uses this version
+    (`cardGo_eq_fast` below is a proved `@[csimp]` equation); all theorems are about `cardGo`. -/
+def cardGoFast (A : Arr) (weighted : Bool) : Nat → Nat → Cache → Cache
+  | 0, _, c => c
+  | fuel + 1, p, c =>
+    match c.getD p none with
+    | some _ => c
+    | none =>
+      let c := c.setIfInBounds p none
+      let nd := nodeAt A p
+      let c2 := cardGoFast A weighted fuel nd.low (cardGoFast A weighted fuel nd.high c)
+      match c2.getD nd.low none, c2.getD nd.high none with
+      | some cl, some ch => c2.setIfInBounds p (some (cardNode A weighted nd cl ch))
+      | _, _ => c2
+
+@[csimp] theorem cardGo_eq_fast : @cardGo = @cardGoFast := by
+  funext A w fuel
+  induction fuel with
+  | zero => funext p c; rfl
+  | succ fuel ih =>
+    funext p c
+    simp only [cardGo, cardGoFast]
+    split
+    · rfl
+    · rename_i h
+      rw [set_none_eq c p h, ih]
+
 /-- depth bound: a root-to-terminal path of a valid diagram has at most `num_vars + 1` nodes, a path
     along which the stored variables strictly increase has at most `len` nodes -/
 def cardFuel (A : Arr) : Nat := max A.size (numVars A) + 2
